@@ -113,6 +113,22 @@ func checkC16(c *Case, st *Stats) string {
 	}
 	walk(nested)
 	list := []interface{}{obj, obj2, obj3}
+	// regions: an OBJECT whose members are filtered, with the key further down in the selected ones
+	regions := map[string]interface{}{
+		"zz9r1": map[string]interface{}{"zz9t": 1.0, "zz9in": obj},
+		"zz9r2": map[string]interface{}{"zz9t": 1.0, "zz9in": map[string]interface{}{"zz9x": obj3, "zz9y": obj2}},
+		"zz9r3": map[string]interface{}{"zz9t": 2.0, "zz9in": obj},
+		"zz9r4": map[string]interface{}{"zz9t": 1.0, "zz9in": []interface{}{obj2, obj}},
+	}
+	var occRegions []interface{}
+	for _, rk := range []string{"zz9r1", "zz9r2", "zz9r4"} {
+		saved := occ
+		occ = nil
+		walk(regions[rk])
+		occRegions = append(occRegions, occ...)
+		occ = saved
+	}
+	members := map[string]interface{}{"zz9m1": obj, "zz9m2": obj2, "zz9m3": obj3}
 	eqLit := "1000"
 	if want == nil {
 		eqLit = "null"
@@ -133,6 +149,10 @@ func checkC16(c *Case, st *Stats) string {
 			{"filter-eq", "$[?(@" + sp.sel + " == " + eqLit + ")]", list, []interface{}{obj}},
 			{"filter-exists", "$[?(@" + sp.sel + ")]", list, []interface{}{obj, obj3}},
 			{"filter-ne", "$[?(@" + sp.sel + " != 3000)]", list, []interface{}{obj, obj2}},
+			{"below-object-filter-..", "$[?(@.zz9t == 1)].." + strings.TrimPrefix(sp.sel, "."), regions, occRegions},
+			{"below-object-filter", "$[?(@.zz9t == 2)].zz9in" + sp.sel, regions, []interface{}{want}},
+			{"below-wildcard", "$.*" + sp.sel, members, []interface{}{want, 3000.0}},
+			{"below-wildcard-filter-on-objects", "$.*[?(@" + sp.sel + ")]", map[string]interface{}{"zz9a": map[string]interface{}{"p": obj, "q": obj2}, "zz9b": map[string]interface{}{"p": obj3}}, []interface{}{obj, obj3}},
 		}
 		if sp.dot {
 			probes = append(probes, probe{"no-dollar", strings.TrimPrefix(sp.sel, "."), obj, []interface{}{want}})
@@ -156,6 +176,39 @@ func checkC16(c *Case, st *Stats) string {
 			}
 		}
 		st.Class("positions-checked")
+	}
+	// the member stays addressable by a parsed function whose previous call was cut short: a user
+	// function panicked half-way through the traversal and the caller recovered
+	if sps := spellingsOf(key); len(sps) > 0 {
+		sp := sps[len(c.Strs)%len(sps)]
+		path := "$.." + strings.TrimPrefix(sp.sel, ".") + ".f1()"
+		rec := &Recorder{}
+		f, err := jsonpath.Parse(path, BuildConfig(rec, true, false))
+		if err != nil {
+			return fmt.Sprintf("key %q, spelling %s: %q was rejected by Parse: %v", key, sp.name, path, err)
+		}
+		rec.PanicNext = true
+		func() {
+			defer func() {
+				if r := recover(); r != nil {
+					if _, ours := r.(UserPanic); !ours {
+						panic(r)
+					}
+				}
+			}()
+			_, _ = f(regions)
+		}()
+		rec.PanicNext = false
+		got, rerr := f(nested)
+		st.Eval(2)
+		var expect []interface{}
+		for _, x := range occ {
+			expect = append(expect, []interface{}{"f1", x})
+		}
+		if rerr != nil || !reflect.DeepEqual(got, expect) {
+			return fmt.Sprintf("key %q, spelling %s: %q, called after a call in which a user function panicked (recovered by the caller), returned (%s, %v), expected %s", key, sp.name, path, JSONString(got), rerr, JSONString(expect))
+		}
+		st.Class("after-a-panicking-call")
 	}
 	// an absent near-miss key must not be found
 	for _, absent := range c.Paths {
